@@ -879,3 +879,19 @@ package kcp
 //@   requires @C14 held(r.mutex)
 //@ func rngChacha8.updateSeed
 //@   requires @C14 held(r.mutex)
+
+// ===================================================================================
+// C12 — wrap-around kinds. seq: 32-bit sequence numbers; clock: 32-bit millisecond clock values.
+// Every ordering of such values must go through _itimediff (signed 32-bit difference); see
+// engine/kind.go for the rules the pass enforces on every function of the package.
+// ===================================================================================
+//
+//@ kind seq KCP.snd_una KCP.snd_nxt KCP.rcv_nxt segment.sn segment.una ackItem.sn
+//@ kind clock KCP.ts_flush KCP.ts_probe segment.ts segment.resendts ackItem.ts
+//@ kindfunc currentMs clock
+//@ kindfunc KCP.Check clock
+//@ kindok _itimediff
+//@ kind seq local:KCP.Input.sn local:KCP.Input.una local:KCP.Input.snd_una local:KCP.parse_ack.sn local:KCP.parse_fastack.sn
+//@ kind seq local:KCP.parse_una.una local:KCP.ack_push.sn local:segmentHeap.Has.sn
+//@ kind clock local:KCP.Input.ts local:KCP.Input.latest local:KCP.Input.current local:KCP.parse_fastack.ts local:KCP.ack_push.ts
+//@ kind clock local:KCP.flush.current local:KCP.Check.current local:KCP.Check.ts_flush local:KCP.Update.current
